@@ -27,6 +27,20 @@ Theorem C05_disk_invariant : forall e, shard_range e ->
 Proof. exact disk_invariant. Qed.
 Print Assumptions C05_disk_invariant.
 
+(* histories may contain failed updates between the successful ones ([run_f]: each update with
+   an arbitrary set of armed write faults - unwritable map, crt-list, main or shard file,
+   Model/ConfigSM.v [fpoint]; [wf_hist] only leaves out FReloadSilent, which is no write fault):
+   after every update that succeeds - the first one after any number of failed ones included,
+   whatever its batch: empty, an unchanged backend parsed again, or new changes - the files hold
+   exactly the current model *)
+Theorem C05_disk_invariant_after_faults : forall e, shard_range e ->
+  forall h, wf_hist e inst_empty h ->
+  forall l fs s', wf_batch e (i_cfg (run_f e inst_empty h)) l -> armed fs FReloadSilent = false ->
+    step_f e fs (run_f e inst_empty h) l = (s', false) ->
+    disk_ok e (i_cfg s') (i_disk s').
+Proof. exact disk_invariant_after_faults. Qed.
+Print Assumptions C05_disk_invariant_after_faults.
+
 (* the hypotheses are satisfiable (two shards; a full sync - w_s1 is the state it leads to -,
    then a partial sync that removes the only backend of shard 1) *)
 Theorem C05_hypotheses_satisfiable :
